@@ -161,6 +161,14 @@ def oracle_roundtrip(ctx, c, stats):
     if not accepted:
         stats["rejected"] += 1
         return
+    # accepted: only NUL padding may follow the structure (anything else is dropped silently by Marshal)
+    try:
+        t0, s0, e0 = read_one(x, 0, len(x))
+        if x[e0:].strip(b"\x00"):
+            ctx.violation("C16:trailing-data-dropped", "input with %d bytes of non-NUL data after the structure was accepted; Marshal drops them" % len(x[e0:]), {"cases": [c]})
+            return
+    except DerError:
+        pass
     # accepted: BER must never be accepted
     try:
         rx = regions(x.rstrip(b"\x00") if not c["valid"] else x)
@@ -235,7 +243,7 @@ def oracle_builder(ctx, c, stats):
     witness = []
     for i, r in enumerate(c["rounds"]):
         if r.get("sign_err"):
-            ctx.violation("C16:builder:sign-error:" + c["label"], r["sign_err"], {"cases": [c]})
+            ctx.violation("C16:builder:sign-error", "%s [builder case %s]" % (r["sign_err"], c["label"]), {"cases": [c]})
             return witness
         out = bytes.fromhex(r["out"])
         problems = []
@@ -268,14 +276,16 @@ def oracle_builder(ctx, c, stats):
             problems.append("signature does not verify over the emitted bytes (%s)" % r["sig_how"])
         if problems:
             if c["in_domain"]:
-                ctx.violation("C16:builder:" + c["label"], "; ".join(problems), {"cases": [c], "round": i})
+                cat = ("attr-preimage" if "digested" in problems[0] else "mandatory-attrs" if "attribute" in problems[0]
+                       else "signature" if "signature" in problems[0] else "certificates")
+                ctx.violation("C16:builder:" + cat, "%s [builder case %s]" % ("; ".join(problems), c["label"]), {"cases": [c], "round": i})
                 return witness
             witness.append({"label": c["label"], "round": i, "problems": problems, "relic_self_verify": r["self_ok"]})
         elif c["in_domain"] and r["self_ok"] != "ok":
-            ctx.violation("C16:builder:self-verify:" + c["label"], "relic does not verify its own output: %s" % r["self_ok"], {"cases": [c], "round": i})
+            ctx.violation("C16:builder:self-verify", "relic does not verify its own output: %s [builder case %s]" % (r["self_ok"], c["label"]), {"cases": [c], "round": i})
     if c.get("stamp"):
         if c.get("stamp_err"):
-            ctx.violation("C16:stamp:error:" + c["label"], "TimestampAndMarshal failed with an OpenSSL token: %s" % c["stamp_err"], {"cases": [c]})
+            ctx.violation("C16:stamp:error", "TimestampAndMarshal failed with an OpenSSL token: %s [builder case %s]" % (c["stamp_err"], c["label"]), {"cases": [c]})
             return witness
         if c.get("stamped"):
             tok = bytes.fromhex(c["token"])
